@@ -76,24 +76,28 @@ class Interp:
                     r = self.attr_hook(base, n.attr, self)
                     if r is not None:
                         return r
-            if isinstance(n, (ast.ListComp, ast.SetComp, ast.DictComp, ast.GeneratorExp)) and len(n.generators) == 1 and not n.generators[0].is_async:
-                g = n.generators[0]
-                seq = ev(g.iter, env, hook)
-                if isinstance(seq, Opaque) or (isinstance(seq, str) and len(seq) > 256):
-                    raise Unknown('comprehension over an uncomputable sequence')
+            if isinstance(n, (ast.ListComp, ast.SetComp, ast.DictComp, ast.GeneratorExp)) and not any(g.is_async for g in n.generators):
                 out = {} if isinstance(n, ast.DictComp) else []
-                for x in list(seq):
-                    e2 = dict(env)
-                    self._assign(g.target, x, e2)
-                    keep = True
-                    for c in g.ifs:
-                        if not self.value(c, e2):
-                            keep = False
-                    if keep:
+
+                def gen(k, e1):
+                    if k == len(n.generators):
                         if isinstance(n, ast.DictComp):
-                            out[self.value(n.key, e2)] = self.value(n.value, e2)
+                            out[self.value(n.key, e1)] = self.value(n.value, e1)
                         else:
-                            out.append(self.value(n.elt, e2))
+                            out.append(self.value(n.elt, e1))
+                        return
+                    g = n.generators[k]
+                    seq = self.value(g.iter, e1)
+                    if isinstance(seq, Opaque) or (isinstance(seq, str) and len(seq) > 256):
+                        raise Unknown('comprehension over an uncomputable sequence')
+                    if isinstance(seq, set):
+                        seq = sorted(seq, key=repr)
+                    for x in list(seq):
+                        e2 = dict(e1)
+                        self._assign(g.target, x, e2)
+                        if all(self.value(c, e2) for c in g.ifs):
+                            gen(k + 1, e2)
+                gen(0, env)
                 return (True, set(out) if isinstance(n, ast.SetComp) else out)
             if isinstance(n, ast.Lambda):
                 return (True, Lam(n, env))
@@ -175,6 +179,11 @@ class Interp:
             ref = env[fn.id]
             fake = ast.Call(func=ast.Attribute(value=ast.Name(id='cls', ctx=ast.Load()), attr=ref.func.name, ctx=ast.Load()) if ref.bound else ast.Name(id=ref.func.name, ctx=ast.Load()), args=n.args, keywords=n.keywords)
             return (True, self._inline(fake, ref.func, env))
+        if isinstance(fn, ast.Name) and fn.id in ('max', 'min') and len(n.args) == 1 and len(n.keywords) == 1 and n.keywords[0].arg == 'key' and isinstance(n.keywords[0].value, ast.Name) and n.keywords[0].value.id == 'len':
+            seq = self.value(n.args[0], env)
+            if isinstance(seq, (list, tuple)) and seq and all(isinstance(x, (str, list, tuple)) for x in seq):
+                return (True, (max if fn.id == 'max' else min)(seq, key=len))
+            raise Unknown('%s(key=len) over an uncomputable or empty sequence (%s)' % (fn.id, loc(n)))
         if isinstance(fn, ast.Name) and fn.id == 'sorted' and len(n.args) == 1 and n.keywords and all(k.arg in ('key', 'reverse') for k in n.keywords):
             seq = self.value(n.args[0], env)
             if isinstance(seq, (list, tuple)):
